@@ -341,14 +341,18 @@ CLAIMS = {
             "the member bit offset is DW_AT_data_bit_offset when present, else 8 * DW_AT_data_member_location plus the "
             "endianness-converted DW_AT_bit_offset (R-MEMBEROFF, R-BITOFFCONV: 8 * byte_size - bit_offset - bit_size on "
             "little endian, identity on big endian); a size in bits is 8 * DW_AT_byte_size, else DW_AT_bit_size (R-SIZEBITS) - "
-            "the formulas of the DWARF standard, in every world of attribute presence",
+            "the formulas of the DWARF standard, in every world of attribute presence; the partial offset readers are used by "
+            "die_member_offset only (R-OFFSETSRC); every comparison of the DIE comparison functions pairs a value of `l` with a "
+            "value of `r` (R-DIESIDE) and never goes through the first byte of a form-encoded value (R-VALPDEREF) - both found "
+            "a defect on the base tree, replayed with clang and repaired",
             "the attribute values themselves and every layout the reader copies rather than computes: the oracle is a compiler",
             "§8.6 (added after the design: C15 was first declared not applicable)"),
     "C16": ("table extraction composed with the writer's vocabulary for the qualifier tags, finite-world interpretation of "
             "build_function_type per kind of child DIE, path-sensitive must-pass for the void fallback",
             "DW_TAG_const/volatile/restrict_type are recorded as the qualifier the writer spells with the same name "
             "(R-CVCONV); a formal parameter yields a plain parameter, unspecified parameters the variadic marker, other "
-            "children nothing (R-VARIADIC); a function without DW_AT_type returns void (R-RETVOID); every formal parameter "
+            "children nothing (R-VARIADIC); the signature string of a variadic function type always names the ellipsis "
+            "(R-VARIADICNAME); a function without DW_AT_type returns void (R-RETVOID); every formal parameter "
             "contributes a parameter (R-PARMKEEP: today one whose type cannot be built is dropped silently - recorded, "
             "replayed finding)",
             "which DIEs exist, the types they refer to, names and typedef chains: runtime",
